@@ -38,12 +38,20 @@ type scriptReader struct {
 	failErr     error // delivered instead of io.EOF when the data runs out
 	reads       int
 	onRead      func(sr *scriptReader, p []byte)
+	failOnce    bool // the failure is reported once; later reads report a plain EOF
+	failed      bool
 	afterEnd    int // Read calls after the end signal was given
 	repeatEnd   bool
 }
 
 func (s *scriptReader) endErr() error {
 	if s.failErr != nil {
+		if s.failOnce {
+			if s.failed {
+				return io.EOF
+			}
+			s.failed = true
+		}
 		return s.failErr
 	}
 	return io.EOF
@@ -392,6 +400,22 @@ func c09PartB(t *testing.T, r *h.Run) {
 						cs = append(cs, u)
 					}
 					return &scriptReader{data: data, chunks: cs, eofWithData: eofWith}
+				})
+			}
+		}
+		// zero-length reads spread over the whole stream: one (and three) before every data
+		// read of the byte-at-a-time and 7-byte deliveries (hundreds in total, never 100 in a row)
+		for _, u := range []int{1, 7} {
+			for _, z := range []int{1, 3, 60} {
+				u, z := u, z
+				try(fmt.Sprintf("uniform=%d with %d zero-length reads before every read", u, z), func() *scriptReader {
+					var cs []int
+					zs := map[int]int{}
+					for k, i := 0, 0; k < n; k, i = k+u, i+1 {
+						cs = append(cs, u)
+						zs[i] = z
+					}
+					return &scriptReader{data: data, chunks: cs, zeros: zs}
 				})
 			}
 		}
